@@ -549,6 +549,7 @@ impl GenState {
             VT::V128 => ConstE::V128(((k as u128) << 64) | 0xABCD_0000_0000_0000_0000_0000_1234u128 | ((k as u128) << 4)),
             VT::FuncRef => ConstE::RefNull(true),
             VT::ExternRef => ConstE::RefNull(false),
+            VT::AnyRef => panic!("harness: no constant of type anyref"),
         }
     }
 }
@@ -782,6 +783,25 @@ pub fn gen_base(rng: &mut Rng, p: &Profile, st: &mut GenState) -> ModuleSpec {
             (ty, st.gconst(rng, ty))
         };
         m.globals.push(GlobalSpec { ty, mutable, init });
+    }
+    // a GC aggregate: an immutable anyref global whose initialiser holds SEVERAL references
+    // (`global.get a; global.get b | ref... ; struct.new $pair`)
+    {
+        let i32_imps: Vec<u32> = imm_imp_globals.iter().filter(|(_, t)| *t == VT::I32).map(|(g, _)| *g).collect();
+        if p.gc_types && !i32_imps.is_empty() && rng.chance(1, 2) && !st.used_gother.contains(&(VT::AnyRef, false, "struct.new".into())) {
+            st.used_gother.push((VT::AnyRef, false, "struct.new".into()));
+            let pair = SubT {
+                is_final: true,
+                supertype: None,
+                shared: false,
+                comp: Comp::Struct(vec![(ST::Val(VT::I32), false), (ST::Val(VT::I32), false)]),
+            };
+            let t = m.flat_types().len() as u32;
+            m.types.push(RecGroupSpec { explicit: false, types: vec![pair] });
+            let a = *rng.pick(&i32_imps);
+            let second = if rng.chance(2, 3) { ConstE::GlobalGet(*rng.pick(&i32_imps)) } else { ConstE::I32(rng.below(50) as i32) };
+            m.globals.push(GlobalSpec { ty: VT::AnyRef, mutable: false, init: ConstE::StructNew(t, vec![ConstE::GlobalGet(a), second]) });
+        }
     }
     // ---- exports / start / elems decided before bodies so `declared` is known
     if p.exports {
@@ -1369,6 +1389,17 @@ impl OpGen<'_> {
                     .collect();
                 let id = *self.rng.pick_opt(&c)?;
                 let (ty, _, _) = m.global_ty(id)?;
+                if let MGK::Local { init: ConstE::StructNew(t, _), .. } = &m.globals[id as usize].kind {
+                    // a new aggregate initialiser: again several references in one initialiser
+                    let imm: Vec<u32> = m
+                        .alive_globals()
+                        .into_iter()
+                        .filter(|g| matches!(&m.globals[*g as usize].kind, MGK::Import { ty: VT::I32, mutable: false, .. }))
+                        .collect();
+                    let a = *self.rng.pick_opt(&imm)?;
+                    let b = if self.rng.chance(2, 3) { ConstE::GlobalGet(*self.rng.pick(&imm)) } else { ConstE::I32(self.rng.below(50) as i32) };
+                    return Some(Op::ModGlobalInit { id, init: ConstE::StructNew(*t, vec![ConstE::GlobalGet(a), b]) });
+                }
                 Some(Op::ModGlobalInit {
                     id,
                     init: self.st.gconst(self.rng, ty),
